@@ -147,7 +147,8 @@ class ByteArray(SimpleModel):
             # binascii.Error is a ValueError in Python 3
             logger.exception(e)
 
-            if len(value) < 100:
+            # what failed to decode need not be a string
+            if not isinstance(value, six.binary_type) or len(value) < 100:
                 raise ValidationError(value)
             else:
                 raise ValidationError(value[:100] + b"(...)")
